@@ -13,7 +13,7 @@ From V.gen Require Consts.
 From V.C03 Require Import Model Msg Proofs UviProofs LsProofs WebRtc WebRtcProofs Fallback.
 From V.C03 Require Import MsgRef MsgProofs MsgInv Chan Dir SimD SimL SimSys BytesThm LazyThm.
 From V.C03 Require Import Work Work2 Live Timed TimedProofs Survivor NegOps LazyBytes Compose Sub SubProofs.
-From V.C03 Require Import Peer PeerTie.
+From V.C03 Require Import Peer PeerTie RefDiff.
 From V.C03 Require Glue.
 Import ListNotations.
 Open Scope N_scope.
@@ -745,6 +745,31 @@ Theorem C03_peer_reference_listener_wire_vs_dialer :
        first_common (c_ds c) (c_ls c) = None).
 Proof. exact reference_listener_wire_vs_dialer. Qed.
 Print Assumptions C03_peer_reference_listener_wire_vs_dialer.
+
+(* Where the reference and litep2p legitimately differ (RefDiff.v), stated explicitly: (1) the
+   reference's dialer accepts the header line any number of times, litep2p's once - the two
+   reactions differ on a SECOND header only, and against every legal listener (invariant RD of
+   Peer.v, which holds along every run of the dialer and its environment) the reference's dialer
+   takes exactly the step litep2p's takes; a legal listener's answers contain no header line. *)
+Theorem C03_ref_header_difference :
+  (forall p hr m, d_react p hr m <> d_react_ref p m -> hr = true /\ m = MHeader) /\
+  (forall ds S m, RD ds S m -> mstep_d_ref m = mstep_d m) /\
+  (forall S ps rs r, LegalL S ps rs r -> ~ In MHeader rs).
+Proof. split; [exact d_react_ref_diff | split; [exact ref_dialer_same_steps | exact legal_answers_no_header]]. Qed.
+Print Assumptions C03_ref_header_difference.
+
+(* (2) the reference's names are text (`String::from_utf8`, otherwise InvalidProtocol), litep2p's
+   are byte strings: the two decoders agree on every name line whose name is valid UTF-8 - the
+   domain of the differential stream -, and every piece of an ASCII payload is text *)
+Theorem C03_ref_name_difference :
+  (forall p, text_name p = true ->
+     decode_line_ref (encode_msg (MProto p)) = decode_msg (encode_msg (MProto p))) /\
+  (forall a b c : bytes, forallb (fun x => x <? 128) (a ++ b ++ c) = true -> text_name b = true).
+Proof.
+  split; [exact ref_decode_same_on_text|].
+  intros a b c H. apply ascii_is_text. exact (ascii_piece a b c H).
+Qed.
+Print Assumptions C03_ref_name_difference.
 
 (* ---- non-vacuity of layer 10. A peer that supports only "/b" against the dialer of ["/a"; "/b"]:
    it answers header, na, confirmation of "/b" and sends "hi"; its bytes arrive one at a time with
